@@ -230,7 +230,7 @@ def _primitives(ctx):
     for n_ in ("NS", "getNS", "MP", "getMP"):
         ctx.func(CM, n_)
 
-    from sa.props._lib_d import VMError
+    from sa.props._lib_h_d import VMError
     from sa.props._lib_h import xvm
     vm = xvm(cm)
     vm.mod._g["int_to_bytes"] = lambda n, length=None: n.to_bytes(length or ((n.bit_length() + 7) // 8 or 1), "big")   # cryptography.utils contract
@@ -266,8 +266,8 @@ def _primitives(ctx):
                 ok = True
             elif isinstance(par, ast.BinOp) and isinstance(par.op, ast.Add):
                 ok = True
-            elif isinstance(par, (ast.Assign, ast.Return)) or (isinstance(par, ast.IfExp) and n is not par.test):
-                ok = True
+            elif isinstance(par, (ast.Assign, ast.Return)) or isinstance(par, (ast.IfExp, ast.If)) or (isinstance(par, ast.UnaryOp) and isinstance(par.op, ast.Not)):
+                ok = True       # handed on whole, or tested: a flag derived from permitted looks / the emptiness of the string (length class 0 is enumerated)
             elif isinstance(par, ast.Compare) and "number" in what:
                 others = [par.left] + list(par.comparators)
                 ok = all(o is n or (isinstance(o, ast.Constant) and o.value == 0) for o in others)
@@ -386,7 +386,7 @@ def _key_pool():
 
 def _key_roundtrips(ctx):
     from sa.props import _lib_h_keys as K
-    from sa.props._lib_d import VMError
+    from sa.props._lib_h_d import VMError
     from sa.props._lib_h import xvm
     mod = ctx.mod(KY)
     vm = K.install(xvm(mod, budget=2 * 10 ** 8))
